@@ -95,12 +95,20 @@ func TestVerifC11bConcurrent(t *testing.T) {
 				b1, _ = vfC11MutatePipeline(g, b0, info0)
 			default:
 				for attempt := 0; attempt < 5; attempt++ {
-					b1, _ = vfGenPipelineBody(g, "", 3, false)
+					var info1 vfPipeInfo
+					b1, info1 = vfGenPipelineBody(g, "", 3, false)
+					info0.DanglingNS = info0.DanglingNS || info1.DanglingNS
 					vfC11StripMirror(b1)
 					if vfC11PipeAccepted(env, b1) {
 						break
 					}
 				}
+			}
+			if info0.DanglingNS {
+				// panics on its own, possibly depending on time (see the pipeline test)
+				vf.Class("discarded-dangling-namespace")
+				vf.Case(false, "", nil)
+				return
 			}
 			b0["name"], b0["kind"] = "pl1", "Pipeline"
 			b1["name"], b1["kind"] = "pl1", "Pipeline"
@@ -133,7 +141,6 @@ func TestVerifC11bConcurrent(t *testing.T) {
 			vf.Case(false, "", nil)
 			return
 		}
-		_ = tree1
 		vf.Class("accepted-pair", "level="+level, "mode="+mode, "kind="+kindName)
 
 		nOld := 3 + vfUniform(rt, "nold", 6)
@@ -294,6 +301,25 @@ func TestVerifC11bConcurrent(t *testing.T) {
 		}
 		if ci.hung || cc.hung || (oldFail != nil && oldFail.call.hung) || (newFail != nil && newFail.call.hung) {
 			rt.Fatalf("VF-INCONCLUSIVE a call did not return within %s\n%s", vfC11HangLimit, describe())
+		}
+		if (ci.panicked || cc.panicked || oldFail != nil || newFail != nil) &&
+			(vfC11Nondet(kindName, tree0) != "" || vfC11Nondet(kindName, tree1) != "") {
+			// a panic of a time- or random-dependent spec is only attributed to the update when
+			// further never-updated twins stay panic-free
+			for i := 0; i < 3; i++ {
+				var ok0, ok1 bool
+				if level == "filter" {
+					_, ok0, _ = vfC11Twin(env, kind, text0, oldR)
+					_, ok1, _ = vfC11Twin(env, kind, text1, newR)
+				} else {
+					_, ok0, _ = vfC11PipeTwin(env, text0, oldR)
+					_, ok1, _ = vfC11PipeTwin(env, text1, newR)
+				}
+				if !ok0 || !ok1 {
+					vf.Class("discarded-single-generation-panic", "discarded-single-generation-panic found-late")
+					return
+				}
+			}
 		}
 		if ci.panicked {
 			if vfC11Report(vf, rt, vfC11PanicKey(kindOf(ci), "new", ci), "Inherit panicked under live traffic: %s\n%s", ci.text, describe()) {
